@@ -1,0 +1,10 @@
+//go:build verif
+
+// Contracts for package network, checked by /verif/govc (comment-only; not part of any normal build).
+
+package network
+
+//@ func (*Network).Configure
+//@   prop C20
+//@   call grpc.NewDummyAuthenticator #1 requires !config.Strictmode
+//@   cover call grpc.NewDummyAuthenticator #1
